@@ -1273,3 +1273,12 @@ def run(res, facts, tier):
     _run_c02_27(res, facts, tier)
     from . import c02_axes
     c02_axes.run_rule(res, facts, tier)
+
+
+_run_c02_28 = run
+
+
+def run(res, facts, tier):
+    _run_c02_28(res, facts, tier)
+    from . import c02_path
+    c02_path.run_rule(res, facts, tier)
